@@ -1,7 +1,7 @@
 (* Entry point of the wide_ops proofs: re-exports the proof files and restates, without the
    unused section parameters, the few theorems that picked some up. *)
 From VV Require Export BV.Ops1800 Wide.WideModel Wide.WideArith Wide.WideBits Wide.WideShift Wide.WideExt
-  Wide.WideCmp Wide.WideMask Wide.WideAshr Wide.Wide1800.
+  Wide.WideCmp Wide.WideMask Wide.WideAshr Wide.WideAsym Wide.Wide1800.
 Open Scope N_scope.
 
 Theorem wide_bnot_spec' : forall n a, length a = n -> wf a ->
